@@ -1,6 +1,7 @@
 """C23 — generated source is deterministic, idempotent and replaced atomically.
 
-Tie A (regeneration): the decisive parts of recompiler._make_c_or_py_source (which file is read and compared,
+Tie A (regeneration): the whole body of recompiler._make_c_or_py_source is pinned (SKELETON) and its decisive parts
+(the file-like branch's receiver/argument/result, the buffer call, which file is read and compared,
 the comparison, which file is written, what is written, the rename arguments, the fallback, the return values)
 are extracted from the current source by a shape-matching driver into coq/C23/Gen.v (record `the_holes`);
 the iteration audit of the emitter (tools/props/c23_audit.py: every use of a set-valued expression, every dict
@@ -137,6 +138,7 @@ def translate(repo):
         "(* every use of a set-valued expression, every dict iteration and every process-dependent call in the four",
         "   files that produce the emitted text (tools/props/c23_audit.py) *)",
         c23_audit.gallina(c23_audit.audit(repo)),
+        c23_audit.gallina_state(c23_audit.class_state(repo)), "",
         holes_record(repo, "the_holes"), ""])
 
 
@@ -338,9 +340,25 @@ def gen_write_case(rng, mode=None, old=None, cr=False):
     return c
 
 
+def gen_shared_case(rng):
+    """several FFI objects in one process: base1 (random declarations + a struct, a union, an anonymous struct
+    typedef, an enum, a self-referential struct), mid includes base1, base2 independent, top includes mid and base2"""
+    t = rng.choice(["pt", "node", "S", "rec_"])
+    base1 = ("struct c23_%s { int x, y; struct c23_%s *next; };\nunion c23_val { int i; double d; };\n"
+             "typedef struct { struct c23_%s a, b; } c23_seg_t;\nenum c23_e { C23_A, C23_B = %d };\n"
+             "double c23_length(c23_seg_t *);\nint c23_sign(union c23_val *);\n" % (t, t, t, rng.randrange(2, 99)))
+    base1 = gen_cdef(rng) + base1 if rng.random() < 0.7 else base1
+    mid = ("int c23_inside(struct c23_%s *, c23_seg_t *, enum c23_e);\nstruct c23_mid { c23_seg_t s; union c23_val v; "
+           "struct c23_%s *p; };\ntypedef struct c23_mid c23_mid_t;\n" % (t, t))
+    base2 = "typedef struct c23_b2 { long k; %s w; } c23_b2_t;\nenum c23_f { C23_F0 };\nc23_b2_t *c23_get(void);\n" % rng.choice(PRIMS[:8])
+    top = "int c23_all(c23_mid_t *, c23_b2_t *, struct c23_%s *, enum c23_f);\nstruct c23_top { c23_mid_t m; c23_b2_t b; };\n" % t
+    return dict(kind="shared", base1=base1, mid=mid, base2=base2, top=top, preamble=rng.choice(PREAMBLES))
+
+
 def generate(ctx, big=False):
     rng = ctx.rng
     cases = [gen_emit_case(rng, include=(i % 4 == 0)) for i in range(10 if not big else 50)]
+    cases += [gen_shared_case(rng) for _ in range(2 if not big else 10)]
     fixed = [("py", "absent"), ("py", "same"), ("py", "different"), ("c", "same"), ("c", "different"), ("py", "longer"),
              ("py", "prefix"), ("c", "absent"), ("py", "crlf")]
     cases += [gen_write_case(rng, m, o) for m, o in fixed]
@@ -446,6 +464,49 @@ def evaluate(ctx, cases):
                                   % ("c" if mode == "c" else "python", len(shas), "/".join(SEEDS), within, where))
             if not bad and c["cdef"].count("\n") >= 4:
                 ctx.nontrivial(("emit", c["cdef"], c["name"], c["preamble"]))
+    shared = [c for c in cases if c["kind"] == "shared"]
+    if shared:
+        # the whole scenario in one process; base1 alone in a fresh process under another hash seed
+        full, p = s.run_worker("c23_worker.py", dict(cases=shared), timeout=1200, hashseed=SEEDS[0])
+        fresh, p2 = s.run_worker("c23_worker.py", dict(cases=[dict(c, fresh_only=True) for c in shared]), timeout=1200,
+                                 hashseed=SEEDS[2])
+        if full is None or fresh is None:
+            pp = p if full is None else p2
+            ctx.violation(shared[0], "worker failed: " + (pp.stderr[-1500:] or pp.stdout[-500:]))
+            return
+        for c, r, rf in zip(shared, full["results"], fresh["results"]):
+            if "cdef_error" in r or "cdef_error" in rf:
+                ctx.mismatch(c, "generator produced an invalid cdef: %s" % (r.get("cdef_error") or rf.get("cdef_error")),
+                             "harness: cdef generator")
+                continue
+            ok = True
+            for mode in ("c", "py"):
+                fn = "emit_%s_code" % ("c" if mode == "c" else "python")
+                for label, lst in sorted(r[mode]["texts"].items()):
+                    ctx.count(len(lst))
+                    for e in lst[1:]:
+                        if e["sha"] != lst[0]["sha"]:
+                            ok = False
+                            ctx.violation(c, "several FFI objects in one process: the text %s generates for '%s' %s differs "
+                                          "from the text generated %s (same declarations, module name and source); first "
+                                          "difference: %s" % (fn, label, e["step"], lst[0]["step"], e["diff"]))
+                            break
+                f0 = rf[mode]["texts"]["base1"][0]
+                if f0["sha"] != r[mode]["texts"]["base1"][0]["sha"]:
+                    ok = False
+                    ctx.violation(c, "%s for 'base1' in a fresh process (PYTHONHASHSEED=%s) differs from the process with "
+                                  "PYTHONHASHSEED=%s" % (fn, SEEDS[2], SEEDS[0]))
+                up = r[mode]["uptodate"]
+                ctx.count(2)
+                if up["first"] is not True or up["again"] is not False or not up["stat_unchanged"] or not up["bytes_unchanged"]:
+                    ok = False
+                    ctx.violation(c, "%s: 'base1' written to a fresh file (updated=%r), then regenerated into that file after "
+                                  "mid.include(base1): updated=%r, inode/mtime preserved: %s, bytes unchanged: %s — an "
+                                  "up-to-date file must be left untouched and reported as not updated" % (
+                                      fn, up["first"], up["again"], up["stat_unchanged"], up["bytes_unchanged"]))
+            ctx.hist("write_case", "shared")
+            if ok:
+                ctx.nontrivial(("shared", c["base1"], c["preamble"]))
     tcoq, town = [], []
     if writes:
         out, p = s.run_worker("c23_worker.py", dict(cases=writes), timeout=1800)
@@ -520,7 +581,7 @@ def evaluate(ctx, cases):
         for i in bad:
             ctx.mismatch(town[i], "model trace/result = %s; real I/O calls and result: %s" % (
                 (outs.get(i) or "")[:500], tcoq[i][1][:500]), "C23.Model.write_trace (holes from Gen.v) vs real I/O trace")
-    for c in (emits[:1] + writes[:2]):
+    for c in (emits[:1] + writes[:2] + shared[:1]):
         ctx.sample(c)
     ctx.violations.sort(key=lambda v: (v[2] is not None, len(json.dumps(v[0], default=str))))
 
@@ -534,10 +595,16 @@ def run(ctx):
         "empty, with open/read/write/close/os.rename/os.unlink intercepted: return value, mutating calls, inode+mtime, "
         "second regeneration, left-over files, and for every I/O call k a forked child killed before it and after it "
         "(flushed) — the target must hold the old or the new bytes; python-mode traces are compared with the model's. "
-        "Non-trivial = cdef with >= 4 declarations (emit) / >= 6 crash points explored (write).")
+        "each write case also with a StringIO target (no I/O call, True, same text); shared: four FFI objects in one "
+        "process (base1 random + struct/union/anonymous struct/enum, mid includes base1, base2, top includes mid and "
+        "base2), each emitted as C and as Python before and after being included, from a new FFI object afterwards and in "
+        "a fresh process under another hash seed — all texts of one label identical — and base1 regenerated into its "
+        "up-to-date file after the include (not updated, inode/mtime/bytes preserved). "
+        "Non-trivial = cdef with >= 4 declarations (emit) / >= 6 crash points explored (write) / a shared scenario.")
     ctx.assumptions += [
-        "shape-matched driver tools/props/c23.py extracts the holes of _make_c_or_py_source; the skeleton in "
-        "C23/Model.v is hand-written and tied by the trace correspondence of this run",
+        "shape-matched driver tools/props/c23.py pins the whole body of _make_c_or_py_source and extracts its 17 holes; the "
+        "trace skeleton and make_source in C23/Model.v are hand-written and tied by the trace / file-like correspondence "
+        "of this run",
         "rename(2) replaces the destination atomically; the old content is decodable; crash = process death at an "
         "I/O call boundary (no torn writes inside one write(2) to the temporary file matter for the target)",
         "determinism: the iteration audit is syntactic and name-based (sets arise only from set constructors in "
@@ -556,20 +623,34 @@ def run(ctx):
 
 
 MANIFEST = dict(
-    technique="Coq proofs about (1) the file-operation trace of _make_c_or_py_source with its decisive parts re-extracted "
-              "from the source each run and (2) a regenerated list of every set use / dict iteration / process-dependent "
-              "call of the emitter, each class covered by an order-independence theorem and composed over an abstract "
-              "emitter + crash-point enumeration, I/O-trace correspondence and hash-seed sampling on the real code",
-    text="Proof (any old/new content): identical content without '\\r' => no mutating operation and result False; 'not "
-         "updated' only if the text is the same; after any prefix of the operations of the POSIX path the target holds "
-         "the old or the new content; on completion target = new and no temporary is left. Refuted for content with "
-         "'\\r' (rewritten every run: known finding cr_in_source); the non-POSIX fallback is shown non-atomic (outside "
-         "the quantifier). Determinism: the site list of the emitter (uses of sets, dict iterations, process-dependent calls) "
-         "is regenerated from four source files each run; every site must fall in a class with a proved "
-         "order-independence theorem (commutative fold, sorted with distinct keys, singleton, insertion-ordered dict), "
-         "composed into: an emitter that looks at sets only through such consumers produces the same text for every "
-         "delivery order. That recompiler.py is such an emitter is audited syntactically, not proved; bytes are also "
-         "sampled across hash seeds on cdefs reaching every audited site (evidence lists sites hit).",
-    note="Partial: determinism = regenerated audit + class theorems + sampling (the link audit->code is syntactic). Trusted: Coq kernel; hand-written skeleton (tied by trace correspondence); "
-         "the hole-extraction driver; atomic rename(2).",
+    technique="Coq proofs about (1) a model of the whole of _make_c_or_py_source — file-like branch and, for a path, the "
+              "file-operation trace — whose control skeleton (all 9 statements) is pinned against the source and whose "
+              "decisive parts (17 holes) are re-extracted each run; (2) a regenerated list of every set use / dict iteration "
+              "/ process-dependent call of the emitter, each class covered by an order-independence theorem and composed "
+              "over an abstract emitter; (3) a regenerated list of class-level mutable containers (must be empty) + "
+              "crash-point enumeration, I/O-trace correspondence, several-FFIs-in-one-process and hash-seed sampling on "
+              "the real code",
+    text="Proof (any old/new content): identical content without '\\r' => no mutating operation and result False "
+         "(C23_uptodate); 'not updated' only if the text is the same (C23_not_updated_means_same); after any prefix of the "
+         "operations of the POSIX path the target holds the old or the new content (C23_atomic); on completion target = new "
+         "and no temporary is left (C23_final_state); a file-like target receives, with no file operation and result True, "
+         "exactly the text a path target is compared with / ends up holding (C23_filelike_same_text, over "
+         "Model.make_source; `gen` = what write_source_to_f writes is abstract). Refuted for content with '\\r' "
+         "(C23_uptodate_refuted: known finding cr_in_source); the non-POSIX fallback is shown non-atomic "
+         "(C23_fallback_not_atomic, outside the quantifier). Determinism: the site list of the emitter is regenerated from "
+         "four source files each run; every site must fall in a class with a proved order-independence theorem "
+         "(C23_audit_sites_ok; C23_fold_order_independent, C23_sorted_emission_order, C23_singleton_order_independent, "
+         "C23_dict_order_is_insertion_order — the last only NoDup/subset of a hand-made dict_order), composed into "
+         "C23_emit_independent_of_set_order over an ABSTRACT emitter that nothing instantiates; "
+         "C23_state_is_per_instance: regenerated fact that no class of recompiler/cffi_opcode/model/cparser/api.py binds a "
+         "mutable container in its class body (state shared between FFI objects). That recompiler.py is such an emitter is "
+         "audited syntactically, not proved; bytes are sampled across hash seeds on cdefs reaching every audited site, and "
+         "across several FFI objects of one process that include each other (each generated before and after being "
+         "included, in a fresh process, and regenerated into its up-to-date file).",
+    note="Partial: determinism = regenerated audits + class theorems + sampling (the link audit->code is syntactic; "
+         "collect_type_table/_generate are not modelled). Correspondence only: the write_trace skeleton (I/O-trace "
+         "comparison, python mode), the file-like branch (no I/O call, True, same text). Not covered: compile() with "
+         "c_file=None (_modname_to_file/makedirs), an existing undecodable target (UnicodeDecodeError is not caught by "
+         "`except OSError`), an unreadable target (conflated with absent). Trusted: Coq kernel; the hole-extraction "
+         "driver; atomic rename(2).",
     design_ref="DESIGN.md §4 C23")
